@@ -33,6 +33,7 @@ use smartcore::ensemble::random_forest_classifier::{
 use smartcore::ensemble::random_forest_regressor::{
     RandomForestRegressor, RandomForestRegressorParameters,
 };
+use smartcore::api::{Predictor, SupervisedEstimator};
 use smartcore::error::Failed;
 use smartcore::linalg::naive::dense_matrix::DenseMatrix;
 use smartcore::linalg::BaseMatrix;
@@ -229,6 +230,10 @@ enum Kind {
              // than the spread of y leaves an SVR without any support vector
     Cls1, // a single class
     Tiny, // unsupervised, two or three distinct points
+    Big,  // size ladder: n in {63,64,65,...,1023,1024,1025} (sometimes ~3000) distinct integer rows,
+          // p = 2, integer-valued linear target + noise, and a batch of 520 query rows
+    Geo,  // one feature growing geometrically (x_i = 2^i, 80..120 rows, ascending or descending):
+          // makes very deep cover trees; targets i mod 7
     Blob, // unsupervised: a few well separated integer clusters + an outlier
 }
 
@@ -278,6 +283,35 @@ fn classes_ok(x: &[Vec<f64>], y: &[f64], k: usize, labels: &[f64], m: usize, nee
 }
 
 fn gen_data(kind: Kind, rng: &mut StdRng, p_fixed: Option<usize>) -> Data {
+    if kind == Kind::Big {
+        let ladder = [63usize, 64, 65, 127, 128, 129, 255, 256, 257, 511, 512, 513, 1023, 1024, 1025, 3001];
+        let n = ladder[rng.gen_range(0..ladder.len())];
+        let mut seen = std::collections::HashSet::new();
+        let mut x = Vec::with_capacity(n);
+        while x.len() < n {
+            let (a, b) = (rng.gen_range(-60..=60i64), rng.gen_range(-60..=60i64));
+            if seen.insert((a, b)) {
+                x.push(vec![a as f64, b as f64]);
+            }
+        }
+        let (c0, c1) = (rng.gen_range(1..=3) as f64, rng.gen_range(-3..=-1) as f64);
+        let y: Vec<f64> = x.iter().map(|r| c0 * r[0] + c1 * r[1] + rng.gen_range(-2..=2) as f64).collect();
+        let q = (0..520).map(|_| vec![rng.gen_range(-64..=64) as f64, rng.gen_range(-64..=64) as f64]).collect();
+        return Data { kind, x, y, q };
+    }
+    if kind == Kind::Geo {
+        let n = [80usize, 96, 120][rng.gen_range(0..3)];
+        let desc = rng.gen_range(0..2) == 1;
+        let first = rng.gen_range(0..4);
+        let mut x: Vec<Vec<f64>> = (0..n).map(|i| vec![(2.0f64).powi((first + i) as i32)]).collect();
+        let mut y: Vec<f64> = (0..n).map(|i| (i % 7) as f64).collect();
+        if desc {
+            x.reverse();
+            y.reverse();
+        }
+        let q = (0..6).map(|_| vec![(2.0f64).powi(rng.gen_range(0..(n as i32))) * 1.25]).collect();
+        return Data { kind, x, y, q };
+    }
     loop {
         let ns = [8usize, 9, 11, 12, 16, 16, 20, 24];
         let n = if kind == Kind::Tiny { rng.gen_range(2..=3) } else { ns[rng.gen_range(0..ns.len())] };
@@ -408,7 +442,7 @@ fn shifted(d: &Data, c: f64, dy: f64, targets_too: bool) -> Data {
     let x = d.x.iter().map(|r| r.iter().map(|v| v + c).collect()).collect();
     let y = if targets_too {
         match d.kind {
-            Kind::Reg | Kind::RegFlat => d.y.iter().map(|v| v + dy).collect(),
+            Kind::Reg | Kind::RegFlat | Kind::Geo | Kind::Big => d.y.iter().map(|v| v + dy).collect(),
             Kind::Blob | Kind::Tiny => d.y.clone(),
             _ => d.y.iter().map(|v| v + 1.0).collect(),
         }
@@ -435,6 +469,31 @@ fn extension_of(d: &Data, more: &Data) -> Data {
         y.extend_from_slice(&more.y[..k]);
     }
     Data { kind: d.kind, x, y, q: d.q.clone() }
+}
+
+/// 'Mirror topology' pairs for trees (single feature, min_samples_split = 4): in A four rows
+/// share x = t-1 (a leaf) and the rows t+1..t+4 are split once more; in B the rows t-4..t-1 are
+/// split once more and four rows share x = t+1.  Targets are arranged so that the nodes at the
+/// same position of the two node tables carry the same output: the trees differ only in WHICH
+/// child of the root is the split -- and in every prediction.
+fn mirror_pair(rng: &mut StdRng, classes: bool) -> (Data, Data) {
+    let t = rng.gen_range(-3..=3) as f64;
+    let (h, l) = if classes {
+        let a = rng.gen_range(0..=2) as f64;
+        if rng.gen_range(0..2) == 0 { (a, a + 1.0) } else { (a + 1.0, a) }
+    } else {
+        let l = rng.gen_range(-4..=4) as f64;
+        let d = (4 * rng.gen_range(1..=4)) as f64;
+        if rng.gen_range(0..2) == 0 { (l + d, l) } else { (l - d, l) }
+    };
+    let (u, ma) = if classes { (l, h) } else { ((h + 3.0 * l) / 4.0, (3.0 * h + l) / 4.0) };
+    let xa: Vec<Vec<f64>> = vec![t - 1., t - 1., t - 1., t - 1., t + 1., t + 2., t + 3., t + 4.].into_iter().map(|v| vec![v]).collect();
+    let ya = vec![u, u, u, u, h, h, h, l];
+    let xb: Vec<Vec<f64>> = vec![t - 4., t - 3., t - 2., t - 1., t + 1., t + 1., t + 1., t + 1.].into_iter().map(|v| vec![v]).collect();
+    let yb = vec![h, l, l, l, ma, ma, ma, ma];
+    let q: Vec<Vec<f64>> = vec![t - 4., t - 2., t - 1., t + 1., t + 2., t + 4.].into_iter().map(|v| vec![v]).collect();
+    let kind = if classes { Kind::Cls2 } else { Kind::Reg };
+    (Data { kind, x: xa, y: ya, q: q.clone() }, Data { kind, x: xb, y: yb, q })
 }
 
 fn mat<T: RealNumber>(rows: &[Vec<f64>]) -> DenseMatrix<T> {
@@ -488,6 +547,8 @@ struct Cx {
     /// hand-made data sets the NEXT call of `drive` fits before its random ones (so that a
     /// known input class is met on every seed)
     fixed: Vec<Data>,
+    /// for fixed[i], an explicitly constructed OTHER training set (alt how = "mirror")
+    fixed_other: Vec<Data>,
 }
 
 fn status3<A, B>(r: &Result<Result<A, B>, String>) -> &'static str {
@@ -501,6 +562,14 @@ fn status3<A, B>(r: &Result<Result<A, B>, String>) -> &'static str {
 /// JSON text of the object with the keys of every struct written in REVERSE alphabetical order
 /// (serde_json::Value keeps maps sorted; the library's declared field order is nrows, ncols,
 /// values, so this is a genuine permutation for DenseMatrix)
+fn json_depth(v: &Value) -> usize {
+    match v {
+        Value::Object(m) => 1 + m.values().map(json_depth).max().unwrap_or(0),
+        Value::Array(a) => 1 + a.iter().map(json_depth).max().unwrap_or(0),
+        _ => 0,
+    }
+}
+
 fn json_permuted(v: &Value) -> String {
     match v {
         Value::Object(m) => {
@@ -536,6 +605,8 @@ where
         "prec": meta.prec, "hasEq": eq.is_some(), "n": d.x.len(), "p": d.x[0].len(),
         "xd": dig_rows(&d.x), "yd": dig_rows(&[d.y.clone()]),
         "obs": obs_value(&base, s), "digok": dg.is_some(), "dig": dig_json(dg.unwrap_or(0))});
+    // nesting depth of the object's JSON form (an exact projection of the serialised shape)
+    built["jdepth"] = json!(guard(|| serde_json::to_value(a).map(|v| json_depth(&v)).unwrap_or(0)).unwrap_or(0));
     if std::env::var("C19_DUMP").is_ok() {
         // debugging aid: C19_DUMP=1 adds the training data to the Built events
         built["x"] = json!(d.x);
@@ -622,7 +693,7 @@ where
         }
         // the same comparison in the other direction (other == original)
         if let (Ok(Ok(b)), Some(f), true) = (&alt.obj, eq, alt.role == "other" && alt.how != "rowsonly") {
-            let how_rev = match alt.how { "indep" => "indep-rev", "shift" => "shift-rev", "prefix" => "prefix-rev", "extension" => "extension-rev", _ => "other-rev" };
+            let how_rev = match alt.how { "indep" => "indep-rev", "shift" => "shift-rev", "prefix" => "prefix-rev", "extension" => "extension-rev", "mirror" => "mirror-rev", _ => "other-rev" };
             cx.out.emit(json!({"run": run, "ev": "Alt", "role": alt.role, "how": how_rev, "status": "ok",
                 "n": alt.data.x.len(), "xd": dig_rows(&alt.data.x), "yd": dig_rows(&[alt.data.y.clone()]),
                 "obs": obs_value(&ob, s)}));
@@ -644,6 +715,7 @@ where
 {
     let mut rng = rng(1900 + stream);
     let fixed: Vec<Data> = std::mem::take(&mut cx.fixed);
+    let fixed_other: Vec<Data> = std::mem::take(&mut cx.fixed_other);
     for rep in 0..reps + fixed.len() {
         let d = if rep < fixed.len() { fixed[rep].clone() } else { gen_data(kind, &mut rng, p_fixed) };
         let a = match guard(|| fit(&d)) {
@@ -664,6 +736,12 @@ where
             o
         };
         let obj = guard(|| fit(&ind));
+        if rep < fixed_other.len() {
+            let mut mo = fixed_other[rep].clone();
+            mo.q = d.q.clone();
+            let o = guard(|| fit(&mo));
+            alts.push(Alt { role: "other", how: "mirror", data: mo, obj: o });
+        }
         // a strict prefix and a strict extension of the training set (rows and targets)
         if d.x.len() >= 4 {
             let pre = prefix_of(&d);
@@ -773,7 +851,7 @@ fn kernel_obs<K: Kernel<f64, Vec<f64>>>(k: &K, d: &Data) -> Result<ObsB, Failed>
 
 fn gen_models(path: &str) {
     let reps = if thorough() { 400 } else { 25 };
-    let mut cx = Cx { out: Out::create(path), run: 0, skipped: 0, fixed: vec![] };
+    let mut cx = Cx { out: Out::create(path), run: 0, skipped: 0, fixed: vec![], fixed_other: vec![] };
     let cx = &mut cx;
     let mut st = 0u64;
     let mut next = || {
@@ -1110,6 +1188,91 @@ fn gen_models(path: &str) {
         }),
         Some(|a, b| a == b));
 
+    // ---- rarely compared pairs: same node count and depth, different topology --------------------
+    {
+        let mut r = rng(1998);
+        let k = if thorough() { 12 } else { 4 };
+        let (mut fa, mut fb) = (vec![], vec![]);
+        for _ in 0..k {
+            let (a, b) = mirror_pair(&mut r, false);
+            fa.push(a.clone()); fb.push(b.clone());
+            fa.push(b); fb.push(a);
+        }
+        cx.fixed = fa.clone();
+        cx.fixed_other = fb.clone();
+        drive(cx, next(), 0, m("DecisionTreeRegressor", "mirror-topology", true, true), Kind::Reg, Some(1),
+            |d: &Data| DecisionTreeRegressor::fit(&mat::<f64>(&d.x), &d.y, DecisionTreeRegressorParameters { max_depth: None, min_samples_leaf: 1, min_samples_split: 4 }),
+            |o: &DecisionTreeRegressor<f64>, d: &Data| o.predict(&mat::<f64>(&d.q)).map(ObsB::cont),
+            Some(|a, b| a == b));
+        let (mut ca, mut cb) = (vec![], vec![]);
+        for _ in 0..k {
+            let (a, b) = mirror_pair(&mut r, true);
+            ca.push(a.clone()); cb.push(b.clone());
+            ca.push(b); cb.push(a);
+        }
+        cx.fixed = ca;
+        cx.fixed_other = cb;
+        drive(cx, next(), 0, m("DecisionTreeClassifier", "mirror-topology", true, true), Kind::Cls2, Some(1),
+            |d: &Data| DecisionTreeClassifier::fit(&mat::<f64>(&d.x), &d.y,
+                DecisionTreeClassifierParameters { criterion: SplitCriterion::Gini, max_depth: None, min_samples_leaf: 1, min_samples_split: 4 }),
+            |o: &DecisionTreeClassifier<f64>, d: &Data| o.predict(&mat::<f64>(&d.q)).map(ObsB::disc),
+            Some(|a, b| a == b));
+    }
+
+    // ---- size ladder: training sets and query batches that cross internal block sizes -----------
+    let breps = if thorough() { 8 } else { 2 };
+    drive(cx, next(), breps, m("LinearRegression", "ladder", true, true), Kind::Big, None,
+        |d: &Data| LinearRegression::fit(&mat::<f64>(&d.x), &d.y, Default::default()),
+        |o: &LinearRegression<f64, M64>, d: &Data| -> PartList { vec![("predict", o.predict(&mat(&d.q)).map(ObsB::cont)),
+            ("Predictor::predict", Predictor::predict(o, &mat(&d.q)).map(ObsB::cont)),
+            ("coefficients", Ok(mat_obs(o.coefficients()))), ("intercept", Ok(ObsB::cont(vec![o.intercept()])))] },
+        Some(|a, b| a == b));
+    drive(cx, next(), breps, m("KNNRegressor", "ladder-cover", true, true), Kind::Big, None,
+        |d: &Data| KNNRegressor::fit(&mat::<f64>(&d.x), &d.y, KNNRegressorParameters::default()),
+        |o: &KNNRegressor<f64, Euclidian>, d: &Data| -> PartList { vec![("predict", o.predict(&mat::<f64>(&d.q)).map(ObsB::cont)),
+            ("Predictor::predict", Predictor::predict(o, &mat::<f64>(&d.q)).map(ObsB::cont))] },
+        Some(|a, b| a == b));
+    drive(cx, next(), breps, m("DecisionTreeRegressor", "ladder-trait-fit", true, true), Kind::Big, None,
+        |d: &Data| <DecisionTreeRegressor<f64> as SupervisedEstimator<M64, Vec<f64>, DecisionTreeRegressorParameters>>::fit(&mat::<f64>(&d.x), &d.y, Default::default()),
+        |o: &DecisionTreeRegressor<f64>, d: &Data| -> PartList { vec![("predict", o.predict(&mat::<f64>(&d.q)).map(ObsB::cont)),
+            ("Predictor::predict", Predictor::predict(o, &mat::<f64>(&d.q)).map(ObsB::cont))] },
+        Some(|a, b| a == b));
+    drive(cx, next(), breps, m("RandomForestRegressor", "ladder-keep-samples", true, true), Kind::Big, None,
+        |d: &Data| RandomForestRegressor::fit(&mat::<f64>(&d.x), &d.y,
+            RandomForestRegressorParameters { max_depth: Some(6), min_samples_leaf: 1, min_samples_split: 2, n_trees: 6, m: None, keep_samples: true, seed: 3 }),
+        |o: &RandomForestRegressor<f64>, d: &Data| -> PartList { vec![("predict", o.predict(&mat::<f64>(&d.q)).map(ObsB::cont)),
+            ("predict_oob", o.predict_oob(&mat::<f64>(&d.x)).map(ObsB::cont))] },
+        Some(|a, b| a == b));
+    drive(cx, next(), breps, m("DBSCAN", "ladder", true, false), Kind::Big, None,
+        |d: &Data| DBSCAN::fit(&mat::<f64>(&d.x), DBSCANParameters::default().with_eps(1.5).with_min_samples(3)),
+        |o: &DBSCAN<f64, Euclidian>, d: &Data| o.predict(&mat::<f64>(&d.q)).map(ObsB::disc),
+        Some(|a, b| a == b));
+    drive(cx, next(), breps, m("KMeans", "ladder-k3", false, false), Kind::Big, None,
+        |d: &Data| KMeans::fit(&mat::<f64>(&d.x), KMeansParameters::default().with_k(3)),
+        |o: &KMeans<f64>, d: &Data| o.predict(&mat::<f64>(&d.q)).map(ObsB::disc),
+        Some(|a, b| a == b));
+    drive(cx, next(), breps, m("PCA", "ladder-k1", true, false), Kind::Big, None,
+        |d: &Data| PCA::fit(&mat::<f64>(&d.x), PCAParameters::default().with_n_components(1)),
+        |o: &PCA<f64, M64>, d: &Data| -> PartList { vec![("transform", o.transform(&mat(&d.q)).map(|t| mat_obs(&t))), ("components", Ok(mat_obs(o.components())))] },
+        Some(|a, b| a == b));
+
+    // ---- deep structures: geometrically growing coordinates nest the cover tree dozens of levels deep
+    drive(cx, next(), 2, m("CoverTree", "geometric-deep", true, false), Kind::Geo, None,
+        |d: &Data| CoverTree::new(d.x.clone(), Distances::euclidian()),
+        |o: &CoverTree<Vec<f64>, f64, Euclidian>, d: &Data| search_obs(d, |q, radius| {
+            let r = if radius { o.find_radius(q, 3.0)? } else { o.find(q, 3)? };
+            Ok(r.into_iter().map(|(i, dist, _)| (i, dist)).collect())
+        }),
+        Some(|a, b| a == b));
+    drive(cx, next(), 2, m("KNNRegressor", "default-geometric-deep", true, true), Kind::Geo, None,
+        |d: &Data| KNNRegressor::fit(&mat::<f64>(&d.x), &d.y, KNNRegressorParameters::default()),
+        |o: &KNNRegressor<f64, Euclidian>, d: &Data| o.predict(&mat::<f64>(&d.q)).map(ObsB::cont),
+        Some(|a, b| a == b));
+    drive(cx, next(), 2, m("DBSCAN", "default-geometric-deep", true, false), Kind::Geo, None,
+        |d: &Data| DBSCAN::fit(&mat::<f64>(&d.x), DBSCANParameters::default().with_eps(3.0).with_min_samples(2)),
+        |o: &DBSCAN<f64, Euclidian>, d: &Data| o.predict(&mat::<f64>(&d.q)).map(ObsB::disc),
+        Some(|a, b| a == b));
+
     // ---- neighbour-search structures -----------------------------------------------------------
     for kind in [Kind::Blob, Kind::Reg] {
         drive(cx, next(), reps, m("CoverTree", if kind == Kind::Blob { "euclidian-blob" } else { "euclidian" }, true, false), kind, None,
@@ -1151,35 +1314,71 @@ fn gen_models(path: &str) {
     drive(cx, next(), reps, m("SigmoidKernel", "gamma=0.01,c=0.1", true, false), Kind::Reg, None, |_d: &Data| Ok(Kernels::sigmoid(0.01f64, 0.1)),
         |o: &SigmoidKernel<f64>, d: &Data| kernel_obs(o, d), None);
 
-    // ---- the dense matrix, every shape 1..5 x 1..5, both precisions ----------------------------
+    // ---- the dense matrix: every shape 1..5 x 1..5, a size ladder across internal block sizes,
+    //      and values that are special in binary floating point; both precisions -------------------
+    fn dm_history(cx: &mut Cx, rows: &Vec<Vec<f64>>, label: &str, do64: bool, do32: bool) {
+        let (nr, nc) = (rows.len(), rows[0].len());
+        let other: Vec<Vec<f64>> = rows.iter().map(|rw| rw.iter().map(|v| v + 1.0).collect()).collect();
+        let transposed: Vec<Vec<f64>> = (0..nc).map(|j| (0..nr).map(|i| rows[i][j]).collect()).collect();
+        let d = Data { kind: Kind::Blob, x: rows.clone(), y: vec![], q: vec![] };
+        let od = Data { kind: Kind::Blob, x: other.clone(), y: vec![], q: vec![] };
+        let td = Data { kind: Kind::Blob, x: transposed.clone(), y: vec![], q: vec![] };
+        if do64 {
+            let alts = vec![
+                Alt { role: "refit", how: "same", data: d.clone(), obj: Ok(Ok(mat::<f64>(&d.x))) },
+                Alt { role: "other", how: "shift", data: od.clone(), obj: Ok(Ok(mat::<f64>(&other))) },
+                Alt { role: "other", how: "indep", data: td.clone(), obj: Ok(Ok(mat::<f64>(&transposed))) },
+            ];
+            let meta = Meta { ty: "DenseMatrix", cfg: format!("f64 {}{}x{}", label, nr, nc), det: true, sup: false, prec: 64, jsonperm: true };
+            history(cx, &meta, &mat::<f64>(rows), &d, alts, &|o: &M64, _d: &Data| Ok(mat_obs(o)), Some(|a, b| a == b));
+        }
+        if do32 {
+            let alts = vec![
+                Alt { role: "refit", how: "same", data: d.clone(), obj: Ok(Ok(mat::<f32>(&d.x))) },
+                Alt { role: "other", how: "shift", data: od, obj: Ok(Ok(mat::<f32>(&other))) },
+                Alt { role: "other", how: "indep", data: td, obj: Ok(Ok(mat::<f32>(&transposed))) },
+            ];
+            let meta = Meta { ty: "DenseMatrix", cfg: format!("f32 {}{}x{}", label, nr, nc), det: true, sup: false, prec: 32, jsonperm: true };
+            history(cx, &meta, &mat::<f32>(rows), &d, alts, &|o: &M32, _d: &Data| Ok(mat_obs(o)), Some(|a, b| a == b));
+        }
+    }
     let mut r = rng(1999);
+    // entries: integers, halves, and arbitrary quotients (non-terminating decimals)
+    let mut entry = |r: &mut StdRng| {
+        let a = r.gen_range(-50..=50) as f64;
+        match r.gen_range(0..3) { 0 => a, 1 => a / 2.0, _ => a / (r.gen_range(3..=13) as f64) }
+    };
     let rounds = if thorough() { 40 } else { 4 };
     for _ in 0..rounds {
         for nr in 1..=5usize {
             for nc in 1..=5usize {
-                // entries: integers, halves, and arbitrary quotients (non-terminating decimals)
-                let rows: Vec<Vec<f64>> = (0..nr).map(|_| (0..nc).map(|_| {
-                    let a = r.gen_range(-50..=50) as f64;
-                    match r.gen_range(0..3) { 0 => a, 1 => a / 2.0, _ => a / (r.gen_range(3..=13) as f64) }
-                }).collect()).collect();
-                let other: Vec<Vec<f64>> = rows.iter().map(|rw| rw.iter().map(|v| v + 1.0).collect()).collect();
-                let transposed: Vec<Vec<f64>> = (0..nc).map(|j| (0..nr).map(|i| rows[i][j]).collect()).collect();
-                let d = Data { kind: Kind::Blob, x: rows.clone(), y: vec![], q: vec![] };
-                let alts64 = |d: &Data| vec![
-                    Alt { role: "refit", how: "same", data: d.clone(), obj: Ok(Ok(mat::<f64>(&d.x))) },
-                    Alt { role: "other", how: "shift", data: Data { kind: Kind::Blob, x: other.clone(), y: vec![], q: vec![] }, obj: Ok(Ok(mat::<f64>(&other))) },
-                    Alt { role: "other", how: "indep", data: Data { kind: Kind::Blob, x: transposed.clone(), y: vec![], q: vec![] }, obj: Ok(Ok(mat::<f64>(&transposed))) },
-                ];
-                let meta = Meta { ty: "DenseMatrix", cfg: format!("f64 {}x{}", nr, nc), det: true, sup: false, prec: 64, jsonperm: true };
-                history(cx, &meta, &mat::<f64>(&rows), &d, alts64(&d), &|o: &M64, _d: &Data| Ok(mat_obs(o)), Some(|a, b| a == b));
-                let alts32 = |d: &Data| vec![
-                    Alt { role: "refit", how: "same", data: d.clone(), obj: Ok(Ok(mat::<f32>(&d.x))) },
-                    Alt { role: "other", how: "shift", data: Data { kind: Kind::Blob, x: other.clone(), y: vec![], q: vec![] }, obj: Ok(Ok(mat::<f32>(&other))) },
-                    Alt { role: "other", how: "indep", data: Data { kind: Kind::Blob, x: transposed.clone(), y: vec![], q: vec![] }, obj: Ok(Ok(mat::<f32>(&transposed))) },
-                ];
-                let meta = Meta { ty: "DenseMatrix", cfg: format!("f32 {}x{}", nr, nc), det: true, sup: false, prec: 32, jsonperm: true };
-                history(cx, &meta, &mat::<f32>(&rows), &d, alts32(&d), &|o: &M32, _d: &Data| Ok(mat_obs(o)), Some(|a, b| a == b));
+                let rows: Vec<Vec<f64>> = (0..nr).map(|_| (0..nc).map(|_| entry(&mut r)).collect()).collect();
+                dm_history(cx, &rows, "", true, true);
             }
+        }
+    }
+    // size ladder: row counts just below / at / above 64, 128, 256, 512, 1024, and a few thousand
+    let ladder: Vec<(usize, usize)> = if thorough() {
+        vec![(63, 2), (64, 1), (65, 3), (127, 1), (128, 2), (129, 1), (255, 1), (256, 3), (257, 1), (511, 1), (512, 2), (513, 1),
+             (1023, 1), (1024, 1), (1025, 2), (3, 1025), (4099, 1), (2, 513)]
+    } else {
+        vec![(63, 2), (64, 1), (65, 3), (255, 1), (256, 2), (257, 1), (512, 1), (1023, 1), (1025, 1), (3, 513), (4099, 1)]
+    };
+    for (nr, nc) in ladder {
+        let rows: Vec<Vec<f64>> = (0..nr).map(|_| (0..nc).map(|_| entry(&mut r)).collect()).collect();
+        dm_history(cx, &rows, "ladder ", true, nr % 2 == 1);
+    }
+    // values that are special in binary floating point (all FINITE): signed zeros, near-overflow,
+    // subnormals, neighbours of 1
+    let sp64 = vec![-0.0, 0.0, (2.0f64).powi(1000), -(2.0f64).powi(1000), f64::MAX, f64::MIN_POSITIVE, 5e-324, -5e-324,
+                    1.0 + f64::EPSILON, 1.0 - f64::EPSILON / 2.0, 0.1, 1e-310, 123456789.123456789, -1.0 / 3.0];
+    let sp32: Vec<f64> = vec![-0.0f32, 0.0, (2.0f32).powi(120), -(2.0f32).powi(120), f32::MAX, f32::MIN_POSITIVE, 1e-45, -1e-45,
+                    1.0 + f32::EPSILON, 1.0 - f32::EPSILON / 2.0, 0.1, 1e-40, 16777217.0, -1.0 / 3.0].into_iter().map(|v| v as f64).collect();
+    for (vals, is64) in [(sp64, true), (sp32, false)] {
+        for (nr, nc) in [(1usize, 14usize), (14, 1), (2, 7), (7, 2)] {
+            let mut k = r.gen_range(0..vals.len());
+            let rows: Vec<Vec<f64>> = (0..nr).map(|_| (0..nc).map(|_| { k = (k + 1) % vals.len(); vals[k] }).collect()).collect();
+            dm_history(cx, &rows, "special ", is64, !is64);
         }
     }
     let skipped = cx.skipped;
